@@ -54,8 +54,13 @@ def ensure_wt() -> str:
         r = sh(f'git -C /repo worktree add --detach {WT} HEAD')
         if r.returncode:
             sys.exit(r.stderr)
+    sh(f'git -C {WT} checkout -- . && git -C {WT} clean -fdq')
     sh(f'git -C {WT} checkout -q --detach {head}')
     sh(f'git -C {WT} checkout -- . && git -C {WT} clean -fdq')
+    at = sh(f'git -C {WT} rev-parse HEAD').stdout.strip()
+    dirty = sh(f'git -C {WT} status --porcelain').stdout.strip()
+    if at != head or dirty:
+        sys.exit(f'scratch worktree {WT} is not a clean checkout of {head}')
     return head
 
 
